@@ -266,6 +266,65 @@ def run_containers(res, spec_, rng):
     ca, cb = api.PatternClone(source=0), api.PatternClone(source=0)
     alias_scan(res, ca, cb, "PatternClone:fresh", {"type": "PatternClone"})
     differential(res, ca, cb, "fresh", "PatternClone", rng, 0, {"type": "PatternClone"})
+    # a NOTE cloned out of project A and put into a pattern of project B (plain cell assignment): the clone is B's business
+    for k in range(6):
+        A, B = api.Project(), api.Project()
+        am = A.new_module(api.m.Amplifier, name="A's amp")
+        B.new_module(api.m.Filter, name="B's filter")
+        qa2, qb2 = api.Pattern(tracks=2, lines=2), api.Pattern(tracks=2, lines=2)
+        A.attach_pattern(qa2)
+        B.attach_pattern(qb2)
+        src = qa2.data[k % 2][0]
+        src.note, src.vel, src.module = api.NOTECMD.C5, 100, 2
+        cl = src.clone()
+        qb2.data[1][k % 2] = cl
+        res.count("note_clone_transplants")
+        res.case(("note-clone-transplant", k))
+        owner = getattr(cl, "pattern", None)
+        try:
+            proj_seen = cl.project
+        except Exception:
+            proj_seen = None
+        try:
+            mod_seen = cl.mod
+        except Exception:
+            mod_seen = None
+        if owner is qa2 or proj_seen is A or mod_seen is am:
+            res.violation("C17:alias:Note:clone-keeps-original-owner", f"a clone of a note of project A, placed into a pattern of project B, still belongs to A "
+                                                                       f"(pattern is A's: {owner is qa2}, project is A: {proj_seen is A}, .mod is A's module: {mod_seen is am})", {"type": "Note"})
+            continue
+        before = (snapshot.snap_project(B), B.read())
+        src.vel, src.module = 1, 1
+        am.name = "renamed"
+        qa2.set_via_fn(lambda p_, l_, t_: api.Note(vel=7))
+        if (snapshot.snap_project(B), B.read()) != before:
+            res.violation("C17:leak:Note:clone", "editing project A changed project B, which holds a clone of one of A's notes", {"type": "Note"})
+    # the same bytes loaded twice with OTHER loads in between, for files that lack optional per-module chunks (name, colour ...):
+    # what the second load gives does not depend on what was read in between
+    import struct as _struct
+    from .. import iffparse
+    base = api.Synth(api.m.Reverb(name="Big hall", color=(1, 2, 3))).read()
+    other = api.Project()
+    other.new_module(api.m.Amplifier, name="somebody else", color=(9, 9, 9), finetune=-3, x=77, y=-5)
+    other_raw = other.read()
+    for drop in (b"SNAM", b"SCOL", b"SFIN", b"SREL", b"SMII", b"SMIC", b"SMIB", b"SMIP"):
+        chunks = [(c[0], c[1]) for c in iffparse.parse(base)]
+        if not any(c[0] == drop for c in chunks):
+            continue
+        lacking = iffparse.build([c for c in chunks if c[0] != drop])
+        res.count("same_bytes_with_loads_in_between")
+        res.case(("same-bytes-between", drop))
+        try:
+            first = snapshot.snap_synth(workload.load(lacking))
+            workload.load(other_raw)
+            workload.load(base)
+            second = snapshot.snap_synth(workload.load(lacking))
+        except Exception:
+            res.count("lacking_chunk_unloadable")
+            continue
+        if first != second:
+            d = snapshot.diff(first, second)
+            res.violation(f"C17:leak:load-to-load:{drop.decode()}", f"a file without {drop.decode()} loads as {d[0][1]!r} first and as {d[0][2]!r} after other files were read in between ({d[0][0]})", {"type": "Synth", "dropped": drop.decode()})
     # a refused attach (pattern / clone / module owned by A offered to B) must not leave B holding A's object
     from rv.errors import ModuleOwnershipError, PatternOwnershipError
     for what in ("pattern", "clone", "module"):
